@@ -753,6 +753,8 @@ def names_causes(M, c, text):
 
 
 def classify(M, c, artefact, text, extra=None):
+    if extra in ("renamed-fn-name-unquoted", "valued-fn-name-unquoted"):
+        return "%s:%s" % (artefact, extra)      # evidence in the text itself: not to be attributed to anything else
     cs = names_causes(M, c, text)
     if cs and cs[0] != "unexplained":
         return "%s:%s" % (artefact, cs[0])
@@ -765,7 +767,7 @@ def classify(M, c, artefact, text, extra=None):
         return "dump-query:let-name-capture"
     if any(nm.startswith("@") and ("(as %s " % nm) in text for nm in c.ren.fun.values()):
         return "%s:abstract-prefix-user-symbol" % artefact
-    if any(M.quote(s) != s for s in c.ren.sort.values()):
+    if any(M.quote(s) != s and s in text for s in c.ren.sort.values()):
         return "%s:sort-name-unquoted" % artefact
     if extra:
         return "%s:%s" % (artefact, extra)
@@ -846,7 +848,7 @@ def check_model(ctx, M, c, seg, frames, sig, concrete_text, idx):
         plain_defs.append(["define-fun", pname, params, rs, body])
     declared = [f for f in sig.funs]
     if sorted(seen) != sorted(declared):
-        ctx.violation(classify(M, c, art, seg), "the printed model defines %s, declared are %s" % (sorted(seen), sorted(declared)), replay)
+        ctx.violation(classify(M, c, art, seg, raw_fn_name_cause(M, c, seg)), "the printed model defines %s, declared are %s" % (sorted(seen), sorted(declared)), replay)
         return None
     if clash:
         # NameClashResolver renames a parameter that *is* one of the user's constants (same name, same sort); what it
@@ -870,7 +872,8 @@ def check_model(ctx, M, c, seg, frames, sig, concrete_text, idx):
         pm = [a for (k, _, _, _, a) in res if k == "get-model"]
         ev2 = evaluate(sig, pm[0], asserts) if pm and isinstance(pm[0], list) else dict(error="no plain model")
         if "error" not in ev2 and ev2.get("ok"):
-            ctx.violation("model:reads-back-different", "the model printed for the renamed script, read back and mapped to plain names, does not satisfy "
+            ctx.violation(classify(M, c, "model", seg, "reads-back-different") if "error" in ev else "model:reads-back-different",
+                          "the model printed for the renamed script, read back and mapped to plain names, does not satisfy "
                           "the assertions (%s) although the model of the plain script does" % (ev.get("error") or ev.get("asserts")), replay)
         else:
             ctx.count("uncovered:model-invalid-also-on-plain-names")
